@@ -691,6 +691,10 @@ class Run:
                     self.foreach.pop()
                 return
             if d == "if_stmt":
+                if self.end_consumed:
+                    # known finding F-01p: the compiled end() evaluates conditions after a consumed end-of-input only where no path from
+                    # them could consume end-of-input again
+                    self.tags.add("condition-after-consumed-end")
                 for br in c:
                     if br.data == "if_condition":
                         if self.ev(br.children[0]):
@@ -706,9 +710,12 @@ class Run:
         raise Unsupported(f"statement {d}")
 
     def peek_or_end(self, hint=0):
+        """the current symbol, or None once end-of-input itself has been consumed (nothing can be looked at any more: a statement that
+        chooses by looking ahead then takes the way that needs no input: optional is skipped, case takes else)"""
         try:
             return self.peek(hint)
         except Incomplete:
+            self.tags.add("lookahead-after-consumed-end")
             return None
 
     def act_raise(self, f):
